@@ -45,7 +45,9 @@ pub enum Case {
   /// user function with match arms, called with scalar arguments
   Fun { arity: u8, arms: Vec<Arm>, args: Vec<u8>, call_arity: u8 },
   /// match expression; `wildcard` = append the `*` arm
-  Match { val: MVal, arms: Vec<MArm>, wildcard: bool },
+  /// `shared_names`: pattern variables are drawn from the two names p/q, rotating with arm and position, so that a name an earlier
+  /// (losing) arm bound appears in another position of a later arm; otherwise every arm and position has its own name
+  Match { val: MVal, arms: Vec<MArm>, wildcard: bool, #[serde(default)] shared_names: bool },
   /// recurrences: which, binding style (0 pattern variables / 1 declared parameters where possible), kind u64?, argument(s)
   Rec { which: u8, style: u8, u64k: bool, n: u32, m: u32 },
   /// single-argument scalar function applied to a matrix
@@ -61,7 +63,7 @@ fn guard_s() -> BoxedStrategy<Guard> { prop_oneof![3 => Just(Guard::None), 3 => 
 impl Prop for C16 {
   type Case = Case;
   const ID: &'static str = "C16";
-  fn budget(t: Tier) -> u32 { t.pick(6_000, 150_000) }
+  fn budget(t: Tier) -> u32 { t.pick(20_000, 400_000) }
   fn timeout_ms(_t: Tier) -> u64 { 60_000 }
   fn strategy(_t: Tier, _k: &Known) -> BoxedStrategy<Case> {
     let fun = (1u8..=2).prop_flat_map(|arity| (proptest::collection::vec(arm_s(arity), 1..=5), proptest::collection::vec(0u8..4, arity as usize), prop_oneof![9 => Just(arity), 1 => Just(arity + 1), 1 => Just(arity.max(2) - 1)])
@@ -79,8 +81,8 @@ impl Prop for C16 {
         MVal::Vector(_) => prop_oneof![Just(MPat::ArrHead), Just(MPat::ArrLast), Just(MPat::ArrEmpty)].boxed(),
         MVal::Enum { with_payload, .. } => { let wp = *with_payload; (0u8..3, pat_s()).prop_map(move |(v, p)| MPat::Variant(v, if wp { Some(p) } else { None })).boxed() }
       };
-      (proptest::collection::vec((pat, guard_s(), prop_oneof![2 => Just(Body::Const), 2 => (0u8..2).prop_map(Body::Var), 1 => Just(Body::Sum)]).prop_map(|(pat, guard, body)| MArm { pat, guard, body }), 1..=5), proptest::bool::weighted(0.85))
-        .prop_map(move |(arms, wildcard)| Case::Match { val: val.clone(), arms, wildcard })
+      (proptest::collection::vec((pat, guard_s(), prop_oneof![2 => Just(Body::Const), 2 => (0u8..2).prop_map(Body::Var), 1 => Just(Body::Sum)]).prop_map(|(pat, guard, body)| MArm { pat, guard, body }), 1..=5), proptest::bool::weighted(0.85), any::<bool>())
+        .prop_map(move |(arms, wildcard, shared_names)| Case::Match { val: val.clone(), arms, wildcard, shared_names })
     }).boxed();
     let rec = (0u8..6, 0u8..2, any::<bool>(), 0u32..23, 0u32..13).prop_map(|(which, style, u64k, n, m)| Case::Rec { which, style, u64k, n, m }).boxed();
     let bro = (proptest::collection::vec(arm_s(1), 1..=4), 1u8..=3, 1u8..=3).prop_flat_map(|(arms, rows, cols)| proptest::collection::vec(0u8..4, (rows * cols) as usize).prop_map(move |data| Case::Broadcast { arms: arms.clone(), rows, cols, data })).boxed();
@@ -189,7 +191,7 @@ fn render(c: &Case) -> (String, Vec<String>) {
       let m = crate::kinds::mat_lit(*rows as usize, *cols as usize, &data.iter().map(|d| f64b(*d as f64)).collect::<Vec<_>>(), &|s| crate::kinds::lit(s));
       (format!("{}fz({})", def, m), vec![format!("{}\nfz({})", def, m)])
     }
-    Case::Match { val, arms, wildcard } => {
+    Case::Match { val, arms, wildcard, shared_names } => {
       let mut st = vec![];
       let vtext = match val {
         MVal::Scalar(k) => format!("{}", k),
@@ -204,7 +206,7 @@ fn render(c: &Case) -> (String, Vec<String>) {
       let mut m = String::from("res<f64> := mv?\n");
       let total = arms.len() + if *wildcard { 1 } else { 0 };
       for (i, a) in arms.iter().enumerate() {
-        let (pt, bound) = mpat_text(&a.pat, i);
+        let (pt, bound) = mpat_text(&a.pat, i, *shared_names);
         let g = guard_text(&a.guard, &bound);
         let last = i + 1 == total;
         m.push_str(&format!("  | {}{} => {}{}\n", pt, g, body_text(&a.body, &bound, &[], i), if last { "." } else { "" }));
@@ -221,16 +223,18 @@ fn render(c: &Case) -> (String, Vec<String>) {
   }
 }
 
-fn mpat_text(p: &MPat, arm: usize) -> (String, Vec<Option<String>>) {
+fn mpat_text(p: &MPat, arm: usize, shared: bool) -> (String, Vec<Option<String>>) {
+  // name of the pattern variable of `arm` at tuple position j (single-variable patterns use position 0)
+  let nm = |prefix: &str, j: usize| if shared { ["p", "q"][(arm + j) % 2].to_string() } else if prefix == "w" { format!("w{}x{}", arm, j) } else { format!("{}{}", prefix, arm) };
   match p {
     MPat::Lit(k) => (format!("{}", k), vec![]),
-    MPat::Var => (format!("w{}", arm), vec![Some(format!("w{}", arm))]),
-    MPat::Tuple(ps) => { let bound: Vec<Option<String>> = ps.iter().enumerate().map(|(j, q)| if *q == Pat::Var { Some(format!("w{}x{}", arm, j)) } else { None }).collect(); (format!("({})", ps.iter().enumerate().map(|(j, q)| pat_text(q, &format!("w{}x{}", arm, j))).collect::<Vec<_>>().join(", ")), bound) }
+    MPat::Var => { let n = if shared { nm("w", 0) } else { format!("w{}", arm) }; (n.clone(), vec![Some(n)]) }
+    MPat::Tuple(ps) => { let bound: Vec<Option<String>> = ps.iter().enumerate().map(|(j, q)| if *q == Pat::Var { Some(nm("w", j)) } else { None }).collect(); (format!("({})", ps.iter().enumerate().map(|(j, q)| pat_text(q, &nm("w", j))).collect::<Vec<_>>().join(", ")), bound) }
     MPat::ArrEmpty => ("[]".into(), vec![]),
-    MPat::ArrHead => (format!("[h{} ...]", arm), vec![Some(format!("h{}", arm))]),
-    MPat::ArrLast => (format!("[... l{}]", arm), vec![Some(format!("l{}", arm))]),
+    MPat::ArrHead => { let n = nm("h", 0); (format!("[{} ...]", n), vec![Some(n)]) }
+    MPat::ArrLast => { let n = nm("l", 0); (format!("[... {}]", n), vec![Some(n)]) }
     MPat::Variant(v, None) => (format!(":{}", VARIANTS[*v as usize % 3]), vec![]),
-    MPat::Variant(v, Some(q)) => { let n = format!("w{}", arm); (format!(":{}({})", VARIANTS[*v as usize % 3], pat_text(q, &n)), vec![if *q == Pat::Var { Some(n) } else { None }]) }
+    MPat::Variant(v, Some(q)) => { let n = if shared { nm("w", 0) } else { format!("w{}", arm) }; (format!(":{}({})", VARIANTS[*v as usize % 3], pat_text(q, &n)), vec![if *q == Pat::Var { Some(n) } else { None }]) }
   }
 }
 fn guard_text(g: &Guard, bound: &[Option<String>]) -> String {
@@ -348,7 +352,7 @@ fn check(c: &Case) -> Verdict {
         other => v.fail(format!("C16|broadcast-rejected|{}", other.class()), format!("expected {} got {}:\n{}", want.show(), other.show(), text)),
       }
     }
-    Case::Match { val, arms, wildcard } => {
+    Case::Match { val, arms, wildcard, shared_names } => {
       v.label("class:match");
       let mm = match_eval(val, arms);
       let vc = match val { MVal::Scalar(_) => "scalar", MVal::Tuple(..) => "tuple", MVal::Vector(_) => "vector", MVal::Enum { with_payload: true, .. } => "enum-payload", MVal::Enum { .. } => "enum" };
